@@ -80,7 +80,16 @@ func c11Oracle(el string, opts int, in, out [][2]string) string {
 	return ""
 }
 
-func c11PolicyDSL(opts int) []NativeReq {
+func c11PolicyDSL(opts int, parseOff bool) []NativeReq {
+	flag := func(n string, v bool) NativeReq { return NativeReq{"op": "flag", "name": n, "val": v} }
+	pol := c11PolicyBase(opts)
+	if parseOff {
+		pol = append(pol, flag("RequireParseableURLs", false))
+	}
+	return pol
+}
+
+func c11PolicyBase(opts int) []NativeReq {
 	flag := func(n string, v bool) NativeReq { return NativeReq{"op": "flag", "name": n, "val": v} }
 	return []NativeReq{
 		{"op": "base", "name": "Zero"},
@@ -186,6 +195,28 @@ func runC11(c *Ctx, ev *Evidence) ([]Violation, error) {
 			}
 			extra = append(extra, smt.Eq(nt[fmt.Sprintf("urlstub%d.out", i)], raw), nt[fmt.Sprintf("urlstub%d.ok", i)], simpleURLConstraint(raw))
 		}
+		if pv, ok := r.Notes["parseOff"]; ok && pv.B {
+			// URL checking is off: the values are raw; make them concrete from a
+			// candidate list that includes references url.Parse rejects
+			cands := []string{"http://a/b", "/p", "%zz", "http://a/%", "_blank", "nofollow", "x"}
+			for _, cnd := range cands {
+				extra = append(extra, groundURLFacts(cnd, 1)...)
+			}
+			for i := 0; ; i++ {
+				v, ok := nt[fmt.Sprintf("in.v%d", i)]
+				if !ok {
+					break
+				}
+				if v.IsConst() {
+					continue
+				}
+				var ds []*smt.Term
+				for _, cnd := range cands {
+					ds = append(ds, smt.Eq(v, smt.StrC(cnd)))
+				}
+				extra = append(extra, smt.Or(ds...))
+			}
+		}
 		r2 := solveOb(ur.In, r.Ob, extra, timeout, grace, fmt.Sprintf("C11-refine-p%d", r.Ob.PathID))
 		ev.Query(fmt.Sprintf("C11-refine-p%d", r.Ob.PathID), r2.Res)
 		if r2.Res.Status != smt.Sat {
@@ -196,7 +227,7 @@ func runC11(c *Ctx, ev *Evidence) ([]Violation, error) {
 		opts := int(r2.Notes["opts"].I)
 		in := attrsFromNotes(r2.Notes, "in")
 		want := attrsFromNotes(r2.Notes, "out")
-		req := NativeReq{"op": "sanitizeAttrs", "policy": c11PolicyDSL(opts), "element": el, "attrs": attrsToJSON(in)}
+		req := NativeReq{"op": "sanitizeAttrs", "policy": c11PolicyDSL(opts, r2.Notes["parseOff"].B), "element": el, "attrs": attrsToJSON(in)}
 		nres, nerr := RunNative(c.Repo, c.VerifDir, []NativeReq{req}, "")
 		if nerr != nil {
 			return nil, nerr
